@@ -153,7 +153,7 @@ partial def resolvePath (cur : Option Tree) : List J → List Key
       | none => none
     k :: resolvePath next rest
 
-/-- F32 guard: an existing child of list `dest` is not offered as an insertion into `dest`. -/
+/-- F79 guard: an existing child of list `dest` is not offered as an insertion into `dest`. -/
 def dropOwn (f : Forest) (cx : Ctx) (dest : Nat) (v : VE) : VE :=
   match v with
   | .ref id => if !cx.unsafeRefs && (f.metaOf? id).any (fun m => m.parent == some dest) then .atom .none else v
